@@ -31,11 +31,43 @@ def lookupExact (m : CharsMap) (key : Bytes) : Option Nat :=
     | none => none
 
 /-- The values of all non-empty prefixes of `key` that are keys of the map, shortest first. -/
-def prefixValues (m : CharsMap) (key : Bytes) : List Nat :=
-  (List.range' 1 key.length).filterMap fun n => lookupExact m (key.take n)
+def prefixValues (m : CharsMap) (key : Bytes) : List (Nat × Nat) :=
+  (List.range' 1 key.length).filterMap fun n => (lookupExact m (key.take n)).map fun v => (n, v)
 
-/-- Well-formed map: every transition and every leaf the walk can reach lies inside the array.
-    (The shipped maps are well-formed; after the F14 repair the code is total without it.) -/
+/-- The chunk contains no NUL byte (the search stops at one). -/
 def NoNul (key : Bytes) : Prop := ∀ b ∈ key, b ≠ 0
+
+/-- The longest non-empty prefix of `rest` that is a key of the map: (its length, its value). -/
+def longestKey (m : CharsMap) (rest : Bytes) : Option (Nat × Nat) :=
+  (List.range' 1 rest.length).reverse.findSome? fun n => (lookupExact m (rest.take n)).map fun v => (n, v)
+
+/-- The replacement string stored at offset `v` (up to the next NUL), if `v` is inside the table. -/
+def replacementAt (m : CharsMap) (v : Nat) : Option Bytes :=
+  let stop := scanNul m.normalized v
+  if v ≤ stop ∧ stop ≤ m.normalized.length then some (slice m.normalized v stop) else none
+
+/-- An occurrence of a key counts only if it ends on a character boundary of the text and its
+    replacement lies inside the table. -/
+def keyOccurrence (m : CharsMap) (rest : Bytes) : Option (Nat × Bytes) :=
+  match longestKey m rest with
+  | some (n, v) => if isBoundary rest n then (replacementAt m v).map fun r => (n, r) else none
+  | none => none
+
+/-- C12's reading of "replaces exactly the sequences the map defines and leaves every other character
+    unchanged", inside one grapheme: repeatedly replace the longest key that is a prefix of what is
+    left, otherwise keep one character (SentencePiece's leftmost-longest rule). -/
+def specGrapheme (m : CharsMap) : (fuel : Nat) → Bytes → Bytes
+  | 0, _ => []
+  | _, [] => []
+  | fuel + 1, b :: t =>
+    let g := b :: t
+    match keyOccurrence m g with
+    | some (n, r) => Utf8.encodeChars (Utf8.chars r) ++ specGrapheme m fuel (g.drop n)
+    | none =>
+      let d := Utf8.decodeOne g
+      Utf8.encodeChar (d.1.getD Utf8.REPLACEMENT) ++ specGrapheme m fuel (g.drop d.2)
+
+def normalizeSpec (m : CharsMap) (text : Bytes) (graphemes : List (Nat × Nat)) : Bytes :=
+  graphemes.flatMap fun (s, e) => specGrapheme m (e - s + 1) (slice text s e)
 
 end Kitoken.Spec
